@@ -1852,3 +1852,71 @@ fn read_residuals<R: BitRead, I: SignedInteger>(
         _ => Err(Error::InvalidCodingMethod),
     }
 }
+
+/// Exact mutable state of a reader (verification builds only; see the `verif-hooks` feature)
+#[cfg(feature = "verif-hooks")]
+#[allow(missing_docs)]
+pub struct VerifReaderState<'r, R> {
+    pub source: &'r R,
+    pub current_sample: u64,
+    pub frame_len: usize,
+    pub frame: Vec<i32>,
+    pub buffered: Vec<i32>,
+    pub consumed: usize,
+}
+
+#[cfg(feature = "verif-hooks")]
+fn verif_frame(frame: &Frame) -> (usize, Vec<i32>) {
+    match frame.pcm_frames() {
+        0 => (0, Vec::new()),
+        len => (len, frame.iter().collect()),
+    }
+}
+
+#[cfg(feature = "verif-hooks")]
+impl<R, E> FlacByteReader<R, E> {
+    /// Read-only snapshot of all mutable state (verification builds only)
+    pub fn verif_state(&self) -> VerifReaderState<'_, R> {
+        let (frame_len, frame) = verif_frame(&self.decoder.buf);
+        VerifReaderState {
+            source: &self.decoder.reader,
+            current_sample: self.decoder.current_sample,
+            frame_len,
+            frame,
+            buffered: self.buf.iter().map(|b| i32::from(*b)).collect(),
+            consumed: 0,
+        }
+    }
+}
+
+#[cfg(feature = "verif-hooks")]
+impl<R> FlacSampleReader<R> {
+    /// Read-only snapshot of all mutable state (verification builds only)
+    pub fn verif_state(&self) -> VerifReaderState<'_, R> {
+        let (frame_len, frame) = verif_frame(&self.decoder.buf);
+        VerifReaderState {
+            source: &self.decoder.reader,
+            current_sample: self.decoder.current_sample,
+            frame_len,
+            frame,
+            buffered: self.buf.iter().copied().collect(),
+            consumed: 0,
+        }
+    }
+}
+
+#[cfg(feature = "verif-hooks")]
+impl<R> FlacChannelReader<R> {
+    /// Read-only snapshot of all mutable state (verification builds only)
+    pub fn verif_state(&self) -> VerifReaderState<'_, R> {
+        let (frame_len, frame) = verif_frame(&self.decoder.buf);
+        VerifReaderState {
+            source: &self.decoder.reader,
+            current_sample: self.decoder.current_sample,
+            frame_len,
+            frame,
+            buffered: Vec::new(),
+            consumed: self.consumed,
+        }
+    }
+}
